@@ -69,6 +69,7 @@ func (g *gen) str() string {
 var keyPool = []string{
 	"for", "for", "for", "if", "null", "true", "false", "in", "else", "endif", "endfor", "each",
 	"a", "b", "zz", "foo-bar", "_x", "a1", "A", "ünï", "名前", "fo", "forx", "fор", "Ωmega",
+	"\ufeffbom", "\ufeffbom", "\ufefffor", "\ufeff", "\ufeff1", "a\ufeff",
 	"", "1a", "a b", "a.b", "-a", "a$b", "${", "%{x}", "\"", "\n", "for ", " for", "a=b", "0", "a\\b", "é́x",
 }
 
